@@ -33,6 +33,10 @@ ProbeVerdict(r) ==
   ELSE IF refused
   THEN IF r.err = "ValueError" THEN "ok" ELSE "C34:wrong-exception:" \o r.err
   ELSE IF r.nonfinite THEN "C34:non-finite-number"
+  (* on a dyadic grid in linear mode every coefficient, value and re-interpolation weight lies on *)
+  (* a lattice of rationals whose denominators divide a product of node differences; offgrid =     *)
+  (* the code returned a number farther than 1e-6 (of its scale) from every point of that lattice  *)
+  ELSE IF r.offgrid THEN "C34:number-off-the-exact-lattice"
   ELSE
   LET g == SortGrid(r.raw)
       n == Len(g)
